@@ -358,8 +358,11 @@ fn delta_for_tx(
             }
         }
         crate::portfolio::TxActionSpecifics::Split(split_specs) => {
-            new_share_balance = pre_tx_status.share_balance
-                * split_specs.ratio.pre_to_post_factor().into();
+            // Multiply before dividing: the quotient post/pre alone is generally not
+            // representable (e.g. 1-for-3), while shares * post / pre often is.
+            new_share_balance = (pre_tx_status.share_balance
+                * split_specs.ratio.post_split.into())
+            .div(split_specs.ratio.pre_split);
             let share_diff = *new_share_balance - *pre_tx_status.share_balance;
             // This erroring would be strange in practice. Only if the share balance
             // was already broken.
